@@ -78,15 +78,32 @@ def run_array(case, failures, hsh):
     n = int(numpy.prod(shape))
     evals = nontriv = states = 0
     count_list = [list(c) for c in itertools.product(COUNTS, repeat=n)]
+    variants = [('C', float, float)]
+    if len(shape) == 2 and min(shape) > 1:
+        variants += [('F', float, float), ('T', float, int)]       # column-major copy; transposed view of the transposed copy
+    else:
+        variants += [('C', float, int)]                              # integer count array
     for rates in case['rates']:
-        f = numpy.array(rates, dtype=float).reshape(shape)
+      for layout, rdt, cdt in variants:
+        f = numpy.array(rates, dtype=rdt).reshape(shape)
+        if layout == 'F':
+            f = numpy.asfortranarray(f)
+        elif layout == 'T':
+            f = numpy.ascontiguousarray(f.T).T
+        if layout != 'C' or cdt is not float:
+            if rates != case['rates'][0] and hash(tuple(rates)) % 4:
+                continue            # layout / dtype variants on a fixed quarter of the rate assignments (and always on the first)
         for counts in count_list:
-            c = numpy.array(counts, dtype=float).reshape(shape)
+            c = numpy.array(counts, dtype=cdt).reshape(shape)
+            if layout == 'F':
+                c = numpy.asfortranarray(c)
+            elif layout == 'T':
+                c = numpy.ascontiguousarray(c.T).T
             states += 1
             if max(counts) > 1 or 0.0 in rates or max(counts) == 0:
                 nontriv += 1
-            cls = cls_of(rates, counts)
-            rep = dict(kind='array1', shape=list(shape), rates=rates, counts=counts)
+            cls = cls_of(rates, counts) + ('' if (layout == 'C' and cdt is float) else f',layout={layout},counts={cdt.__name__}')
+            rep = dict(kind='array1', shape=list(shape), rates=rates, counts=counts, layout=layout, cdt=cdt.__name__)
             try:
                 got = float(be.binary_joint_log_likelihood_ndarray(f, c))
                 want, mag = ref_binary(rates, counts)
@@ -224,8 +241,12 @@ def run_case(case):
         shape = tuple(case['shape'])
         rates, counts = case['rates'], case['counts']
         f = numpy.array(rates, dtype=float).reshape(shape)
-        c = numpy.array(counts, dtype=float).reshape(shape)
-        cls = cls_of(rates, counts)
+        c = numpy.array(counts, dtype=(int if case.get('cdt') == 'int' else float)).reshape(shape)
+        if case.get('layout') == 'F':
+            f, c = numpy.asfortranarray(f), numpy.asfortranarray(c)
+        elif case.get('layout') == 'T':
+            f, c = numpy.ascontiguousarray(f.T).T, numpy.ascontiguousarray(c.T).T
+        cls = cls_of(rates, counts) + ('' if (case.get('layout', 'C') == 'C' and case.get('cdt', 'float') == 'float') else f',layout={case.get("layout")},counts={case.get("cdt")}')
         got = float(be.binary_joint_log_likelihood_ndarray(f, c))
         want, mag = ref_binary(rates, counts)
         if not same(got, want, mag):
